@@ -109,26 +109,26 @@ func topFrame(g goro) string {
 // ---------------------------------------------------------------- accounting log
 
 type hookSummary struct {
-	Copies         []int          `json:"copies"`         // sizes of copyItem copies made by resolveCompletedTasks, sorted
-	ResolveCloses  int            `json:"resolve_closes"` // outermost closes issued by resolveCompletedTasks
-	UpdateCloses   int            `json:"update_closes"`  // ... by channelManager.updateValues
-	ChanCloses     int            `json:"chan_closes"`    // ... by dagChannel.reportValues (skipped channel)
-	SkipCloses     int            `json:"skip_closes"`    // ... by dagChannel.reportSkip (channel becomes skipped)
-	Merges         []int          `json:"merges"`         // sizes of the mergeValues calls of channel.get, sorted
-	CPDrains       int            `json:"cp_drains"`      // streams concatenated (drained and closed) by checkPointer.convertCheckPoint
-	InputCloses    int            `json:"input_closes"`   // ignored inputs of resumed calls closed by runner.run
+	Copies        []int `json:"copies"`         // sizes of copyItem copies made by resolveCompletedTasks, sorted
+	ResolveCloses int   `json:"resolve_closes"` // outermost closes issued by resolveCompletedTasks
+	UpdateCloses  int   `json:"update_closes"`  // ... by channelManager.updateValues
+	ChanCloses    int   `json:"chan_closes"`    // ... by dagChannel.reportValues (skipped channel)
+	SkipCloses    int   `json:"skip_closes"`    // ... by dagChannel.reportSkip (channel becomes skipped)
+	Merges        []int `json:"merges"`         // sizes of the mergeValues calls of channel.get, sorted
+	CPDrains      int   `json:"cp_drains"`      // streams concatenated (drained and closed) by checkPointer.convertCheckPoint
+	InputCloses   int   `json:"input_closes"`   // ignored inputs of resumed calls closed by runner.run
 	// closes issued by the run loop that could not be attributed to one of the five functions above (white-box
 	// attribution by function name unavailable: the model side compares totals); Unattributed counts every
 	// engine event (copy / close / merge) attributed by position only
-	UnattributedCloses int `json:"unattributed_closes,omitempty"`
-	Unattributed       int `json:"unattributed,omitempty"`
-	OtherMerges    map[string]int `json:"other_merges,omitempty"`
-	CallbackCopies []int          `json:"callback_copies,omitempty"`
-	OtherCopies    map[string]int `json:"other_copies,omitempty"`
-	OtherCloses    map[string]int `json:"other_closes,omitempty"`
-	Parents        int            `json:"copy_parents"`
-	Streams        int            `json:"streams"`
-	Undrained      []string       `json:"undrained,omitempty"` // copy parents / streams neither fully closed nor drained
+	UnattributedCloses int            `json:"unattributed_closes,omitempty"`
+	Unattributed       int            `json:"unattributed,omitempty"`
+	OtherMerges        map[string]int `json:"other_merges,omitempty"`
+	CallbackCopies     []int          `json:"callback_copies,omitempty"`
+	OtherCopies        map[string]int `json:"other_copies,omitempty"`
+	OtherCloses        map[string]int `json:"other_closes,omitempty"`
+	Parents            int            `json:"copy_parents"`
+	Streams            int            `json:"streams"`
+	Undrained          []string       `json:"undrained,omitempty"` // copy parents / streams neither fully closed nor drained
 }
 
 // ---- white-box attribution of an engine event to the function of the run loop that issued it.
@@ -164,7 +164,8 @@ var (
 
 func attribute(origin, first string, actors []string) (string, int) {
 	frames := strings.Split(origin, "<")
-	if len(frames) == 0 || frames[0] != first {
+	// the engine reaches schema through its packer (compose/stream_reader.go); the method's name is not insisted on
+	if len(frames) == 0 || (frames[0] != first && !strings.HasPrefix(frames[0], "compose.streamReaderPacker.")) {
 		return "", attrOther
 	}
 	methods := 0
@@ -339,24 +340,25 @@ func summarise(ev []schema.VerifC19Event) hookSummary {
 // ---------------------------------------------------------------- observation
 
 type Obs struct {
-	Class     string      `json:"class"`
-	Msg       string      `json:"msg,omitempty"`
-	Chunks    int         `json:"chunks"`
-	EOF       bool        `json:"eof"`
-	Execs     []string    `json:"execs"`
-	Sched     [][]string  `json:"sched"`             // batches of completed tasks as taskManager.wait returned them
-	Producers []string    `json:"producers"`         // name:state
-	Blocked   []string    `json:"blocked,omitempty"` // producers still running after the settle period
-	Leaked    []string    `json:"leaked,omitempty"`  // goroutines with framework / producer frames after the settle period
-	Hook      hookSummary `json:"hook"`
-	SettleMs  int         `json:"-"`
+	Class     string                 `json:"class"`
+	Msg       string                 `json:"msg,omitempty"`
+	Chunks    int                    `json:"chunks"`
+	EOF       bool                   `json:"eof"`
+	Execs     []string               `json:"execs"`
+	Sched     [][]string             `json:"sched"`             // batches of completed tasks as taskManager.wait returned them
+	Producers []string               `json:"producers"`         // name:state
+	Blocked   []string               `json:"blocked,omitempty"` // producers still running after the settle period
+	Leaked    []string               `json:"leaked,omitempty"`  // goroutines with framework / producer frames after the settle period
+	Hook      hookSummary            `json:"hook"`
+	Events    []schema.VerifC19Event `json:"events,omitempty"` // only when the direct oracle fails: the accounting log
+	SettleMs  int                    `json:"-"`
 }
 
 // C19_TIMING=1: where the wall time of the harness goes (stderr, every 200 cases)
 var (
-	timing              = os.Getenv("C19_TIMING") != ""
-	timeRun, timeSettle, timeLoop time.Duration
-	timeCases, timeIters int
+	timing                                  = os.Getenv("C19_TIMING") != ""
+	timeRun, timeSettle, timeLoop, timeDump time.Duration
+	timeCases, timeIters                    int
 )
 
 const (
@@ -372,6 +374,7 @@ func (engine) Run(ci any) lib.Result {
 	for _, g := range dumpGoroutines() {
 		base[g.id] = true
 	}
+	baseN := runtime.NumGoroutine()
 	schema.VerifC19Start()
 	tRun := time.Now()
 	out := runCase(e)
@@ -381,7 +384,7 @@ func (engine) Run(ci any) lib.Result {
 			timeSettle += time.Since(t)
 			timeCases++
 			if timeCases%200 == 0 {
-				fmt.Fprintf(os.Stderr, "c19 timing: %d cases, run %v, settle+rest %v (settle loop %v, %d polls)\n", timeCases, timeRun, timeSettle, timeLoop, timeIters)
+				fmt.Fprintf(os.Stderr, "c19 timing: %d cases, run %v, settle+rest %v (settle loop %v, %d polls, dumps %v)\n", timeCases, timeRun, timeSettle, timeLoop, timeIters, timeDump)
 			}
 		}(time.Now())
 	}
@@ -395,7 +398,21 @@ func (engine) Run(ci any) lib.Result {
 	var sum hookSummary
 	t0 := time.Now()
 	lastSig, quietSince, settled := "", time.Now(), false
-	pause := 50 * time.Microsecond
+	pause, polls := 100*time.Microsecond, 0
+	// a run that returned while a node it had started was not collected (or, any-predecessor mode, with a node
+	// scheduled beside END) is outside the property and gets no verdict below; what makes it so cannot be undone
+	// after the run has returned, so there is no need to wait for such a run to go quiet
+	earlyWhy := ""
+	if out.class == "ok" {
+		earlyWhy = unfinished(c, e)
+	}
+	earlyEnd := earlyWhy != ""
+	// a goroutine dump stops the world and costs a millisecond or two: while the goroutine count says that
+	// goroutines of this case are still winding down, wait without dumping (bounded; the verdict is always
+	// given on a dump)
+	for i := 0; i < 2000 && runtime.NumGoroutine() > baseN; i++ {
+		runtime.Gosched() // no sleep: on a loaded machine a sleep of any length costs a millisecond or more
+	}
 	for {
 		timeIters++
 		blocked, leaked = nil, nil
@@ -409,7 +426,12 @@ func (engine) Run(ci any) lib.Result {
 		}
 		var sig strings.Builder
 		active := false
-		for _, g := range dumpGoroutines() {
+		tDump := time.Now()
+		gs := dumpGoroutines()
+		if timing {
+			timeDump += time.Since(tDump)
+		}
+		for _, g := range gs {
 			if base[g.id] {
 				continue
 			}
@@ -439,14 +461,16 @@ func (engine) Run(ci any) lib.Result {
 		if now.Sub(t0) > settleHard || out.class == "hang" {
 			break
 		}
-		if out.class != "ok" && now.Sub(t0) > 8*time.Millisecond {
+		if (out.class != "ok" || earlyEnd) && now.Sub(t0) > 8*time.Millisecond {
 			break // no verdict is given on a run that did not complete
 		}
 		// most runs are quiet within a fraction of a millisecond: poll quickly at first, then every 2 ms
 		runtime.Gosched()
-		time.Sleep(pause)
-		if pause < 2*time.Millisecond {
-			pause *= 2
+		if polls++; polls > 12 { // on a loaded machine a sleep of any length costs a millisecond or more: yield first
+			time.Sleep(pause)
+			if pause < 2*time.Millisecond {
+				pause *= 2
+			}
 		}
 	}
 	_ = settled
@@ -463,7 +487,7 @@ func (engine) Run(ci any) lib.Result {
 			fmt.Fprintf(os.Stderr, "%+v\n", ev)
 		}
 	}
-	schema.VerifC19Stop()
+	finalEvents := schema.VerifC19Stop()
 	sort.Strings(blocked)
 	sort.Strings(leaked)
 
@@ -508,9 +532,14 @@ func (engine) Run(ci any) lib.Result {
 			res.Tags = append(res.Tags, "abort:unplanned", "abort-unplanned:"+unplannedKind(out.msg))
 		}
 		e.releaseAll()
+		quiesce(base)
 		return res
 	}
-	if why := unfinished(c, e); why != "" {
+	why := earlyWhy // what made the run unfinished when it returned cannot be undone afterwards
+	if why == "" {
+		why = unfinished(c, e) // ... but a task submitted just before the run returned may have started since
+	}
+	if why != "" {
 		// END was reached while a node that had been triggered had not run, or a task was still in
 		// flight (eager mode): not every produced value has a consumer / not every node ran or was
 		// skipped — outside the property
@@ -518,6 +547,7 @@ func (engine) Run(ci any) lib.Result {
 		obs.Msg = why
 		res.Tags = tagsOf(c, e, &obs)
 		e.releaseAll()
+		quiesce(base)
 		return res
 	}
 	// ---- direct oracle
@@ -539,6 +569,13 @@ func (engine) Run(ci any) lib.Result {
 		}
 	}
 	res.Oracle = strings.Join(fails, "; ")
+	if res.Oracle != "" {
+		// the accounting log of the failing run goes into the replay (what was copied, merged and closed by whom)
+		obs.Events = finalEvents
+		if len(obs.Events) > 600 {
+			obs.Events = obs.Events[:600]
+		}
+	}
 
 	// ---- model case: the whole run, every call of an interrupted and resumed run included
 	if term, ok := coqCase(c, e, &sum); ok {
@@ -546,6 +583,47 @@ func (engine) Run(ci any) lib.Result {
 	}
 	res.Nontrivial = len(e.producers) > 0 && (len(sum.Copies) > 0 || len(sum.CallbackCopies) > 0 || sum.Streams > len(e.producers))
 	return res
+}
+
+// quiesce waits, after a run that gets no verdict (aborted, or returned before every started node was collected)
+// has been released, until the goroutines it created are gone or parked for good. Such a run goes on in the
+// background — a task that was never collected still finishes, fires its callbacks, copies and closes streams —
+// and whatever it does would be written into the accounting log of the NEXT case (seen once in round 5: a callback
+// copy made for the one handler of an earlier case showed up as an undrained copy parent of a case with two).
+func quiesce(base map[int]bool) {
+	t0 := time.Now()
+	last, since := "", time.Now()
+	pause := 100 * time.Microsecond
+	for time.Since(t0) < 500*time.Millisecond {
+		var sig strings.Builder
+		n, active := 0, false
+		for _, g := range dumpGoroutines() {
+			if base[g.id] {
+				continue
+			}
+			n++
+			st := strings.SplitN(g.state, ",", 2)[0]
+			fmt.Fprintf(&sig, "%d:%s;", g.id, st)
+			switch st {
+			case "running", "runnable", "syscall", "sleep", "IO wait":
+				active = true
+			}
+		}
+		if n == 0 {
+			return
+		}
+		now := time.Now()
+		if active || sig.String() != last {
+			last, since = sig.String(), now
+		} else if now.Sub(since) >= 40*time.Millisecond {
+			return
+		}
+		runtime.Gosched()
+		time.Sleep(pause)
+		if pause < time.Millisecond {
+			pause *= 2
+		}
+	}
 }
 
 // unplannedKind classifies the message of a run error that no planned abort exit explains (distribution only).
@@ -979,7 +1057,7 @@ func tagsOf(c *Case, e *env, o *Obs) []string {
 		t = append(t, "opt:designated-handler")
 	}
 	for i := range c.Nodes {
-		if c.Nodes[i].Static {
+		if c.Nodes[i].Static && c.Mode == "workflow" && staticable(c.Nodes[i].Kind) {
 			t = append(t, "opt:static-value")
 			break
 		}
